@@ -80,7 +80,7 @@ def check_run(eng, run, data, items, res, mkcase):
 def run_seq(seq, mode, res, via='file', maxcuts=0, bufsize=4096, faults=0):
     eng = sym.Engine(max_paths=60 if via == 'file' else 3000, conc_limit=64, conc_small=0)
     eng.time_budget = 15 if via == 'file' else 120
-    eng.query_timeout_ms = 8000
+    eng.query_timeout_ms = 8000 if via == 'file' else 60000
     H = {}
 
     def fn():
